@@ -1,0 +1,39 @@
+//go:build verif
+
+package app
+
+import (
+	"context"
+
+	"github.com/yandex/mysync/internal/config"
+)
+
+// Verification hooks (build tag "verif"). With the tag off these identifiers are
+// inert no-ops (see verif_hooks_off.go) and shipped behaviour is unchanged.
+
+// VerifBaseContext, when set, supplies the base context of an App instead of the
+// signal-driven one. The App is identified by its own configuration.
+var VerifBaseContext func(cfg *config.Config) context.Context
+
+// VerifStateEnter / VerifStateLeave observe state handler invocations of Run.
+var VerifStateEnter func(cfg *config.Config, state string)
+var VerifStateLeave func(cfg *config.Config, state string, next string)
+
+func verifBaseContext(cfg *config.Config) context.Context {
+	if VerifBaseContext != nil {
+		return VerifBaseContext(cfg)
+	}
+	return nil
+}
+
+func verifStateEnter(cfg *config.Config, state appState) {
+	if VerifStateEnter != nil {
+		VerifStateEnter(cfg, string(state))
+	}
+}
+
+func verifStateLeave(cfg *config.Config, state, next appState) {
+	if VerifStateLeave != nil {
+		VerifStateLeave(cfg, string(state), string(next))
+	}
+}
